@@ -4,6 +4,7 @@ import Pyunicorn.Lemmas.CircuitLaws
 import Pyunicorn.Lemmas.CircuitConn
 import Pyunicorn.Lemmas.CircuitConnC
 import Pyunicorn.Lemmas.CircuitK
+import Pyunicorn.Lemmas.CircuitGRat
 import Pyunicorn.Generated.ArithC18
 /-! # C18 — Resistive-network quantities obey circuit laws
 
@@ -1200,6 +1201,91 @@ theorem pinvCertK_sound [DecidableEq K] {n : Nat} {L R : MatK K} (h : pinvCert n
         rw [List.all_eq_true] at this
         simpa using this j (List.mem_range.mpr hj)
     · cases h
+
+/-! ### the executable instance: the driver's functions at `GRat = ℚ(i)` satisfy the field theorems
+
+`GRat.instField` (`Lemmas/CircuitGRat.lean`) is built from the core instances the compiled driver
+uses; the statements below name those core instances explicitly (`GRat.instAdd`, …), so they are
+about the code that runs, and are proved by the any-field theorems. -/
+section executable
+open GRat
+
+/-- the clustering the driver computes for a complex network is the unconjugated triple sum -/
+theorem driver_clustering_eq_sum (n : Nat) (adj : Adj) (adm : MatK GRat) (i : Nat) :
+    @localClustering GRat instZero instOne instAdd instSub instMul instDiv instNatCast n adj adm i
+      = if degree n adj i = 1 then 0
+        else (∑ j ∈ range n, ∑ k ∈ range n, adm i j * adm i k * adm j k)
+              / (@admDegree GRat instZero instAdd n adm i * ((degree n adj i : GRat) - 1)) :=
+  @impedance_clustering_eq_sum GRat GRat.instField n adj adm i
+
+/-- what the driver's certified pseudo-inverse of a complex Laplacian satisfies -/
+theorem driver_pinvCert_sound {n : Nat} {L R : MatK GRat}
+    (h : @pinvCert GRat instZero instOne instAdd instSub instMul instDiv instNatCast
+          instDecidableEqGRat n L = some R) :
+    IsGinv n L R ∧ IsProj n L R :=
+  @pinvCertK_sound GRat GRat.instField instDecidableEqGRat n L R h
+
+/-- **Foster's theorem for the driver's complex model**: whenever the driver certifies a
+pseudo-inverse for an impedance network with `N ≥ 1` nodes, the effective impedances it prints
+satisfy `Σ_{links} Z_eff Y = N − 1`. -/
+theorem driver_foster (n : Nat) (hn : 0 < n) (adj : Adj) (res R : MatK GRat)
+    (hN : IsNetworkK n adj res)
+    (h : @pinvCert GRat instZero instOne instAdd instSub instMul instDiv instNatCast
+          instDecidableEqGRat n
+          (@laplacian GRat instZero instAdd instSub n (@admittance GRat instZero instOne instDiv adj res))
+          = some R) :
+    ∑ i ∈ range n, ∑ j ∈ range i,
+        @admittance GRat instZero instOne instDiv adj res i j * @effRes GRat instZero instAdd instSub R i j
+      = (n : GRat) - 1 := by
+  obtain ⟨hg, hp⟩ := driver_pinvCert_sound h
+  have hn' : ((n : Nat) : GRat) ≠ 0 := by
+    intro e
+    have := congrArg GRat.re e
+    simp only [GRat.natCast_re, GRat.zero_re] at this
+    have : (n : Rat) = 0 := this
+    have : n = 0 := by exact_mod_cast this
+    omega
+  have h2 : (2 : GRat) ≠ 0 := by
+    intro e
+    have := congrArg GRat.re e
+    have h2' : (2 : GRat) = ((2 : Nat) : GRat) := by norm_cast
+    rw [h2'] at this
+    simp only [GRat.natCast_re, GRat.zero_re] at this
+    norm_num at this
+  exact @impedance_foster GRat GRat.instField n hn' h2 adj res R R hN hg hp
+
+/-- **series law for the driver's complex model** -/
+theorem driver_series_chain (n : Nat) (res R : MatK GRat) (a b : Nat) (hab : a ≤ b) (hb : b < n)
+    (hN : IsNetworkK n chainAdj res)
+    (h : @pinvCert GRat instZero instOne instAdd instSub instMul instDiv instNatCast
+          instDecidableEqGRat n
+          (@laplacian GRat instZero instAdd instSub n
+            (@admittance GRat instZero instOne instDiv chainAdj res)) = some R) :
+    @effRes GRat instZero instAdd instSub R a b = ∑ k ∈ Finset.Ico a b, res k (k + 1) :=
+  @impedance_series_chain GRat GRat.instField n res R a b hab hb hN (driver_pinvCert_sound h).1
+
+/-- non-vacuity at the executable instance: the chain `0 — 1 — 2` with impedance `1 + i` on both
+links; the driver's certificate exists (evaluated by the kernel) and the series law gives
+`2 + 2i` -/
+def zres : MatK GRat := fun _ _ => ⟨1, 1⟩
+
+private theorem zchain_network : IsNetworkK 3 chainAdj zres :=
+  ⟨fun i j _ _ => by simp [chainAdj, Bool.or_comm], fun _ _ _ _ => rfl,
+   fun _ _ _ _ _ h => by have := congrArg GRat.re h; simp [zres] at this⟩
+
+example : ∃ R, @pinvCert GRat instZero instOne instAdd instSub instMul instDiv instNatCast
+      instDecidableEqGRat 3 (@laplacian GRat instZero instAdd instSub 3
+        (@admittance GRat instZero instOne instDiv chainAdj zres)) = some R
+      ∧ @effRes GRat instZero instAdd instSub R 0 2 = zres 0 1 + zres 1 2 := by
+  obtain ⟨R, hR⟩ := Option.isSome_iff_exists.mp
+    (show (@pinvCert GRat instZero instOne instAdd instSub instMul instDiv instNatCast
+      instDecidableEqGRat 3 (@laplacian GRat instZero instAdd instSub 3
+        (@admittance GRat instZero instOne instDiv chainAdj zres))).isSome = true by decide +kernel)
+  refine ⟨R, hR, ?_⟩
+  rw [driver_series_chain 3 zres R 0 2 (by omega) (by omega) zchain_network hR]
+  simp [Finset.sum_range_succ]
+
+end executable
 
 /-! non-vacuity over a field that is not ordered-as-used: ℚ with explicit data — the two-link chain
 with impedances 2 and 3 and a generalised inverse obtained from the projection-type inverse -/
